@@ -32,6 +32,22 @@ def emission(ctx, key, args, vec_index):
     return outs[0].final.locals[vec_index + 1].items
 
 
+def emission_auto(ctx, key, args):
+    """the instruction list an emission function produces for the given (non-list) arguments, whether it appends to a `&mut Vec<Code>`
+    parameter or returns the list"""
+    f = ctx.fx.fn(key)
+    vec_at = [i - 1 for i in range(1, f["argc"] + 1) if f["locals"][i]["ty"].startswith("&mut std::vec::Vec<") or f["locals"][i]["ty"].startswith("&mut Vec<")]
+    if vec_at:
+        return emission(ctx, f["key"], args, vec_at[0])
+    _, outs = backend.fold(ctx, f["key"], list(args))
+    msg = backend.fold_verdict(outs, "R-ABI: %s" % key.split("::")[-1])
+    if msg:
+        return None
+    outs = [o for o in outs if not getattr(o, "diverged", None)]
+    r = outs[0].result
+    return r.items if isinstance(r, Vec) else None
+
+
 def generator_registers(tg):
     """printed names of every register the generator may write: variable registers and the reserved ones"""
     reg_num = tg.consts["REGISTER_NUM"]["val"]
@@ -63,12 +79,11 @@ def rule_abi(b):
         callee_saved = isa.CALLEE_SAVED[arch]
         max_args = 5 if arch == "x86_64" else 7
         # ---- SAVE + PAIR ----
-        cl = interp.run_fn(ctx.fx, crate + "::into_routine::cleanup", [], hooks=[])[1]
-        if len(cl) != 1 or not isinstance(cl[0].result, Vec):
+        cleanup = emission_auto(ctx, crate + "::into_routine::cleanup", [])
+        if cleanup is None:
             raise AnalysisError("R-ABI: cleanup could not be folded")
-        cleanup = cl[0].result.items
         for n in range(max_args + 1):
-            setup = emission(ctx, crate + "::into_routine::setup", [n], 1)
+            setup = emission_auto(ctx, crate + "::into_routine::setup", [n])
             if setup is None:
                 raise AnalysisError("R-ABI: setup(%d) could not be folded" % n)
             m = isa.Machine(arch)
